@@ -1,6 +1,6 @@
 (* C10 property theorems: statements only, each closed by [exact]. *)
 From Boltons Require Import Lib.Prelude Spec.C10_Spec Model.C10_Model
-  Proofs.C10_Barrel Proofs.C10_Queue Proofs.C10_SpecFacts.
+  Proofs.C10_Barrel Proofs.C10_Queue Proofs.C10_SpecFacts Proofs.C10_Big.
 
 (* ---- the reference itself says what the property text says --------------------- *)
 (* pop/peek serve a live task of highest priority; everything inserted before it
@@ -110,3 +110,18 @@ Example C10_barrel_example :
   bl_run (fun _ => 2) ls [BInsert 7 99; BInsert 0 98; BPop 3; BGet 6; BGet 7; BPop 0; BLen; BList]
   = [BNone; BNone; BVal 12; BVal 99; BErr IndexError; BVal 98; BLenIs 6; BItems [10; 11; 13; 14; 15; 99]].
 Proof. split; [discriminate | vm_compute; reflexivity]. Qed.
+
+(* ---- drained big histories: the checker used for queues of tens of thousands ---- *)
+(* an observation accepted by Spec.big_ok is exactly what the reference queue
+   returns on that history (adds, re-adds, removals, len, drain, pop/peek on empty) *)
+Theorem C10_big_ok_sound : forall (p : big_params) (o : big_obs),
+  big_ok p o = true ->
+  spec_run [] (big_ops p (length (o_pops o))) = big_expected p o.
+Proof. exact big_ok_sound. Qed.
+Print Assumptions C10_big_ok_sound.
+
+Example C10_big_example :
+  let p := mkBig 10 (RDesc 3) 4 (RAsc 1) 5 false in
+  let o := mkBigObs 8 [9; 5; 1; 0; 3; 4; 6; 8]%N true in
+  big_ok p o = true /\ spec_run [] (big_ops p 8) = big_expected p o.
+Proof. split; vm_compute; reflexivity. Qed.
